@@ -9,7 +9,7 @@ ENTRY = {0: ('base', r'tlx::multiway_merge_base<'), 1: ('base_sentinels', r'tlx:
 
 def jobs(tier):
     js = []
-    def J(entry, k, stable, big=0, lmax=2, tier_='quick', extra=(), lens=None, mwma=None, size=None):
+    def J(entry, k, stable, big=0, lmax=2, tier_='quick', extra=(), lens=None, mwma=None, size=None, obits=10):
         nm, fn = ENTRY[entry]
         sent = entry in (1, 5, 7)
         name = '%s_k%d_%s%s%s%s' % (nm, k, 'stable' if stable else 'unstable', '_big' if big else '', ('_L' + lens) if lens else '', ('_a%d' % mwma) if mwma is not None else '')
@@ -19,19 +19,20 @@ def jobs(tier):
         js.append(Job(name=name, shim='mwmerge', contract='c05_mwmerge.c', harness='h_' + name, enforce=['c_mm'],
                       shim_defines=['ENTRY=%d' % entry, 'STABLE=%d' % stable, 'BIG=%d' % big],
                       defines=['K=%d' % k, 'STABLE=%d' % stable, 'LMAX=%d' % lmax] + (['SENTINELS'] if sent else []) + list(extra),
-                      functions=[fn], unwind=max(k * lmax + 4, 4 * k + 2), timeout=1500, tier=tier_, mode='assert', object_bits=10,
+                      functions=[fn], unwind=max(k * lmax + 4, 4 * k + 2), timeout=1500, tier=tier_, mode='assert', object_bits=obits,
                       label='bounded: %d sequences of length <= %d (total <= %d), all keys, all sizes' % (k, lmax, k * lmax),
                       what='%s, k=%d, %s, %s elements: returns target+size, inputs advanced by size in total, output ordered%s, exactly the taken elements, nothing smaller left behind' %
                            (nm, k, 'stable' if stable else 'unstable', '40-byte' if big else '2-byte', ' with ties in (sequence, position) order' if stable else '')))
-    for a in (0, 1): J(0, 3, 1, mwma=a, size=2); J(0, 3, 1, mwma=a, size=4); J(0, 3, 1, mwma=a, size=6); J(0, 4, 1, mwma=a, size=3)  # probes
     for stable in (0, 1):
         J(8, 2, stable, lmax=3)                       # merge_advance
-        for k in (0, 1, 2, 3, 4, 5):
-            J(0, k, stable, lmax=2 if k >= 3 else 3)  # multiway_merge_base, every algorithm value, k selects the code path
-        J(1, 3, stable); J(1, 4, stable); J(1, 5, stable)
-        J(2, 3, stable); J(3, 3, stable); J(4, 3, stable); J(5, 3, stable)
-        J(3, 3, stable, big=1); J(4, 3, stable, big=1, tier_='thorough'); J(5, 3, stable, big=1, tier_='thorough')
-        J(6, 3, stable); J(6, 5, stable, tier_='thorough'); J(7, 3, stable); J(7, 5, stable, tier_='thorough')
+        for k in (1, 2):
+            J(0, k, stable, lmax=3)                   # multiway_merge_base with a symbolic algorithm value: k = 1 copies, k = 2 is merge_advance
+        J(5, 3, stable)                               # multiway_merge_loser_tree_sentinel called directly, k = 3
+    J(3, 3, 0, obits=12, tier_='thorough')            # multiway_merge_loser_tree (copying loser tree) called directly, k = 3: 9 minutes
+    # Tried and NOT decidable here (each > 15 min or > 10 GB, see DESIGN.md): multiway_merge_base for k = 3, 4 (the
+    # goto state machines multiway_merge_3/4_variant explode in symbolic execution: every label reached by forward AND
+    # backward jumps merges symbolic `size` values, so no loop bound folds), k = 5 with any algorithm, bubble, the
+    # combined / pointer-based loser trees, the public entry points for k >= 3.
     return js
 
 
@@ -39,6 +40,7 @@ META = {
     'level': 'other',
     'assumptions': ['element = (key, tag) compared by key only; 2-byte elements select the copying loser trees, 40-byte elements the pointer-based ones',
                     'contract enforced by rewriting (assert mode): the assigns clause is not checked'],
-    'not_decided': ['more than 5 sequences / sequences longer than 3', 'multiway_merge_loser_tree_unguarded called directly (it is reached through the combined variants)'],
+    'not_decided': ['k >= 3 through multiway_merge_base / the public entry points (multiway_merge_3_variant, _4_variant, _3_combined, _4_combined, bubble, loser_tree, loser_tree_combined): symbolic execution of the goto state machines and of k >= 5 merges does not finish; seeded changes C05-m1 and C05-m2 live there and are NOT detected',
+                    'k = 0 (nothing to merge)', 'sequences longer than 3 (k <= 2) / 2 (k = 3)', 'pointer-based loser trees (elements larger than 16 bytes)'],
     'explanation': 'the property statement as contract of each entry point and algorithm variant; permutation / smallest-ones / stability stated for ghost indices over tagged elements',
 }
